@@ -46,6 +46,11 @@ def run(rep):
         if o is None or not pinned_holds(m, o):
             rep.finding(cls, {'harness': 'h_message', 'request': d.line(('hset', m, b'X')), 'implementation': out,
                               'what': 'copy of a message outside the well-formed domain is not byte-identical'})
+    # process level: rewriting actions on the real binary with the transfer of the rewritten message disturbed at every call and by
+    # the kernel's file size limit; the final tree is judged by Spec.rewriteOk (tools/rewriteproc.py)
+    import proc
+    import rewriteproc
+    proc_cov = rewriteproc.stage(rep, proc.Tools(sc))
     d.conclude('message.c (headers, message_write) <-> Model/Header.lean')
     vlib.lean_conclude(rep)
     applicable = [i for i, s in enumerate(spec) if s is not None]
@@ -73,9 +78,21 @@ def run(rep):
         'correspondence_mismatches': len(d.corr_mismatch),
         'spec_failures': len(d.spec_fail),
         'sanitizer_faults': len(d.faults),
+        'process_level_rewrite_under_faults': proc_cov,
     })
-    rep.assumptions += ['C locale / C.utf8', 'set values contain no newline or NUL and do not start with a blank (SetOk)']
+    rep.assumptions += ['C locale / C.utf8', 'set values contain no newline or NUL and do not start with a blank (SetOk)',
+                        'process level: single faults; the kernel enforces the file size limit as RLIMIT_FSIZE does (short count, then EFBIG)']
 
 
 def replay(rep, path):
+    import json
+    j = json.load(open(path))
+    if j.get('stage') == 'process':
+        import proc
+        import rewriteproc
+        sc = vlib.Scratch()
+        vlib.lean_gate(rep, 'C08', sc, [])
+        rewriteproc.replay(proc.Tools(sc), j)
+        rep.coverage.update({'evaluations': 1, 'distinct_nontrivial': 1})
+        return
     mc.generic_replay(rep, path, 'C08', SPEC_OPS, ORACLES)
